@@ -75,8 +75,9 @@ def check(repo: Repo, R) -> None:
     fn = repo.func(F_EXPORT, "ProtoExporter.export_module_name")
     rets = shared.returns_of(fn.node)
     q = len(rets) == 1 and shared.prov_text(fn.node, rets[0].value) == "module_qualname(module)"
-    g = q and any(isinstance(n, ast.If) and isinstance(n.test, ast.Compare) and isinstance(n.test.ops[0], ast.In) and ast.unparse(n.test.comparators[0]) == "self.modules_by_name"
-                  and shared.prov_text(fn.node, n.test.left) == "module_qualname(module)" and au.raises(n.body) and any(t is n.test and not pol for t, pol in shared.path_conditions(fn.node, rets[0])) for n in au.walk_no_nested(fn.node))
+    # the name is handed out only when it is known to be free; when it is taken the call raises (`in`, or `.get(..) is None`)
+    g = q and shared.presence(fn.node, rets[0], "self.modules_by_name", "module_qualname(module)") is False \
+        and any(shared.presence(fn.node, r_, "self.modules_by_name", "module_qualname(module)") is True for r_ in shared.raising_leaves(fn.node))
     used = any(shared.prov_text(fm.node, b["V"]) == "self.export_module_name(module)" for _c, b in pat.find("$PM.name = $V", fm.node)) and shared.prov_text(fm.node, nms[0][1]["N"]).endswith(".name") and shared.prov_text(fm.node, nms[0][1]["N"]).startswith("vckt.Module()")
     R.check(g and q and used, rule, key_of(fn), fn.site, f"module names are the qualified name ({q}), refused when already taken by another module ({g}), and used as the exported name ({used})", why="two different modules share one exported name")
     mm = shared.prov_text(fm.node, ids[0][1]["M"], depth=1) == "ModuleMapping(module, pmod)" and shared.prov_text(fm.node, nms[0][1]["M"], depth=1) == "ModuleMapping(module, pmod)"
